@@ -48,8 +48,17 @@ def decision_pins(handles, model, skip_tasks=()):
             if rest in unsched:
                 continue
             pins[name] = v
-        elif kind in ("x", "sel"):
+        elif kind == "x":
             pins[name] = v
+        elif kind == "sel":
+            # the selection of an unscheduled (or absent) task is not part of the schedule
+            sid = rest.split(":", 1)[0]
+            if "@" in sid:
+                users = [sid.split("@", 1)[1]]
+            else:
+                users = [a["task"] for a in handles.spec.get("assign", []) if a["resource"] == sid]
+            if any(u not in unsched for u in users):
+                pins[name] = v
         elif kind in ("lo", "hi"):
             w, _, t = rest.partition(":")
             if (w, t) in handles.dynamic_pairs and t not in unsched:
